@@ -27,6 +27,34 @@ if TYPE_CHECKING:  # pragma: no cover
 from functools import cached_property
 
 
+class _TermKeyedDict(dict):
+    """
+    A dictionary keyed by `Term` instances that also resolves the string
+    representation of a term, whatever the order in which its factors are
+    written (`Term` hashes like the string of its *sorted* factors, so a plain
+    dictionary only finds printed forms that happen to be sorted).
+    """
+
+    def __resolve(self, key: Any) -> Any:
+        if isinstance(key, str) and not dict.__contains__(self, key):
+            for term in self:
+                if str(term) == key:
+                    return term
+            for term in self:
+                if term == key:
+                    return term
+        return key
+
+    def __getitem__(self, key: Any) -> Any:
+        return dict.__getitem__(self, self.__resolve(key))
+
+    def __contains__(self, key: Any) -> bool:
+        return dict.__contains__(self, self.__resolve(key))
+
+    def get(self, key: Any, default: Any = None) -> Any:
+        return dict.get(self, self.__resolve(key), default)
+
+
 @dataclass(frozen=True)
 class ModelSpec:
     """
@@ -201,7 +229,7 @@ class ModelSpec:
         up elements of this mapping using the string representation of the
         `Term`.
         """
-        slices = {}
+        slices = _TermKeyedDict()
         start = 0
         for row in self.__structure:
             end = start + len(row[2])
@@ -251,10 +279,12 @@ class ModelSpec:
         up elements of this mapping using the string representation of the
         `Term`.
         """
-        return {
-            k: slice(v[0], v[-1] + 1) if v else slice(0, 0)
-            for k, v in self.term_indices.items()
-        }
+        return _TermKeyedDict(
+            {
+                k: slice(v[0], v[-1] + 1) if v else slice(0, 0)
+                for k, v in self.term_indices.items()
+            }
+        )
 
     @cached_property
     def term_factors(self) -> dict[Term, set[Factor]]:
